@@ -257,6 +257,10 @@ use zvt::{encoding, length, Zvt, ZvtSerializer};
 
 refcodec::fromval_prelude!();
 
+fn short_name<T>() -> &'static str {
+    std::any::type_name::<T>().rsplit("::").next().unwrap_or("?")
+}
+
 fn run<T>(bytes: &[u8]) -> Outcome
 where
     T: ZvtSerializer + Debug + PartialEq,
@@ -267,6 +271,7 @@ where
         Ok((x, rest)) => {
             let rest = rest.len();
             let reenc = x.zvt_serialize();
+            let _g = refcodec::runaway::begin("decode of the re-serialisation", short_name::<T>(), &reenc);
             let (re_eq, re_rest, re_err, re_debug) = match T::zvt_deserialize(&reenc) {
                 Ok((y, r)) => (y == x, r.len(), None, format!("{y:?}")),
                 Err(e) => (false, 0, Some(format!("{e:?}")), String::new()),
@@ -294,6 +299,7 @@ where
 {
     let x = T::from_val(v)?;
     let enc = x.zvt_serialize();
+    let _g = refcodec::runaway::begin("decode of its own serialisation", short_name::<T>(), &enc);
     let dec = match T::zvt_deserialize(&enc) {
         Ok((y, rest)) => Ok((y == x, rest.len(), format!("{y:?}"))),
         Err(e) => Err(format!("{e:?}")),
@@ -340,7 +346,16 @@ impl Sut for Child {
 
 fn main() {
     // args: <tier> <seed> <threads> <out.json> <per_type_random> <mutation_bases>
+    //   or: decode-one <type> <hex> <report.json>   (one decode alone in this process, under the runaway monitor)
     let a: Vec<String> = std::env::args().collect();
+    if a.get(1).map(|s| s.as_str()) == Some("decode-one") {
+        install_panic_hook();
+        install_log_sink();
+        refcodec::runaway::start_watchdog(a[4].clone(), std::time::Duration::from_secs(10), 2 << 20);
+        let bytes = refcodec::unhex(&a[3]).unwrap();
+        let _ = Sut::run(&mut refcodec::runaway::Watched(Child), &a[2], &bytes);
+        return;
+    }
     let tier = a[1].clone();
     let seed: u64 = a[2].parse().unwrap();
     let threads: usize = a[3].parse().unwrap();
@@ -358,7 +373,10 @@ fn main() {
     let keys: Vec<String> = schema.order.clone();
     let mut report = Report::new(id, &tier, seed, "exploration");
     let plan = Plan { per_type_random, per_field_alone: 4, all_present: 4, mutation_bases, max_perms: 120, big: false };
-    let make: &(dyn Fn() -> Box<dyn Sut> + Sync) = &|| Box::new(Child);
+    // a decode that does not come back / allocates without bound ends this process with exit code 3 and the
+    // operations in flight in <out>.runaway (the parent runs each of them again, alone)
+    refcodec::runaway::start_watchdog(format!("{out}.runaway"), std::time::Duration::from_secs(30), 6 << 20);
+    let make: &(dyn Fn() -> Box<dyn Sut> + Sync) = &|| Box::new(refcodec::runaway::Watched(Child));
     run_types(threads, seed, &mut report, &schema, &keys, prop, id, &plan, make);
     presence_floor(&mut report, &schema, &keys);
     // a field that can never be present/absent canonically is the generator's business, not a verdict
@@ -442,6 +460,52 @@ pub fn run(ctx: &Ctx) -> i32 {
 /// Generate `n_crates` crates of struct definitions, build them against the repository and run the engine for property
 /// `id` ("C12": everything; "C13" / "C14": only that property's mutations) on them; results are absorbed into `report`.
 /// The crate of a given (seed, k, n_structs) is identical for every id, so that it is built once.
+/// The generated program ended itself because an operation did not come back or memory ran away (exit code 3): run every
+/// operation that was in flight again, alone in a fresh process.  One that again does not come back within 10 s or grows
+/// beyond 2 GiB is a violation (no value, no error); if none does, the run is inconclusive.
+fn runaway_verdict(report: &mut Report, id: &str, k: usize, out: &Path, bin: Option<PathBuf>) {
+    let path = PathBuf::from(format!("{}.runaway", out.display()));
+    let text = std::fs::read_to_string(&path).unwrap_or_default();
+    let _ = std::fs::remove_file(&path);
+    let (Ok(j), Some(bin)) = (serde_json::from_str::<serde_json::Value>(&text), bin) else {
+        report.inconclusive(&format!("generated crate {k}: the program ended itself as runaway but left no readable report"));
+        return;
+    };
+    let reason = j["reason"].as_str().unwrap_or("?").to_string();
+    let dir = out.parent().map(|p| p.to_path_buf()).unwrap_or_default();
+    let src = std::fs::read_to_string(dir.join("src/main.rs")).unwrap_or_default();
+    let layout = std::fs::read_to_string(dir.join("src/layout.txt")).unwrap_or_default();
+    let mut confirmed = 0;
+    let mut seen = BTreeSet::new();
+    for op in j["ops"].as_array().cloned().unwrap_or_default().iter().take(16) {
+        let (Some(ty), Some(hexs), Some(kind)) = (op["type"].as_str(), op["bytes"].as_str(), op["kind"].as_str()) else { continue };
+        if kind == "construct + serialise" || !seen.insert((ty.to_string(), hexs.to_string())) {
+            continue;
+        }
+        let rep = dir.join("decode-one.runaway");
+        let _ = std::fs::remove_file(&rep);
+        let st = std::process::Command::new(&bin).args(["decode-one", ty, hexs, rep.to_str().unwrap()]).stdout(std::process::Stdio::null()).stderr(std::process::Stdio::null()).status();
+        let again = std::fs::read_to_string(&rep).ok().and_then(|t| serde_json::from_str::<serde_json::Value>(&t).ok());
+        let _ = std::fs::remove_file(&rep);
+        match (st, again) {
+            (Ok(s), Some(a)) if s.code() == Some(refcodec::runaway::EXIT_RUNAWAY) => {
+                confirmed += 1;
+                let def = src.split("\n#[derive(Debug, Default, PartialEq, Zvt)]\n").find(|b| b.contains(&format!("pub struct {ty} {{"))).map(|b| b.split("impl FromVal").next().unwrap_or("").to_string());
+                let lay = layout.split("\n\n").find(|b| b.starts_with(&format!("struct {ty}\n")) || b.starts_with(&format!("struct {ty} "))).map(|s| s.to_string());
+                report.violation(
+                    &format!("{id} generated type: a decode does not come back (no value, no error)"),
+                    &format!("crate {k} type {ty}: {kind} of {} bytes: in the run: {reason}; alone in a fresh process: {}", hexs.len() / 2, a["reason"].as_str().unwrap_or("?")),
+                    json!({"kind": "derive-runaway", "type": ty, "bytes": hexs, "operation": kind, "program": def, "layout": lay, "confirm_cmd": format!("{} decode-one {ty} {hexs} /dev/null", bin.display())}),
+                );
+            }
+            _ => {}
+        }
+    }
+    if confirmed == 0 {
+        report.inconclusive(&format!("generated crate {k}: the program ended itself ({reason}); none of the {} operations in flight did it again alone", j["ops"].as_array().map(|a| a.len()).unwrap_or(0)));
+    }
+}
+
 pub fn run_generated(ctx: &Ctx, report: &mut Report, id: &str, n_crates: usize, n_structs: usize, per_type: usize, bases: usize) -> Option<i32> {
     let repo = std::env::var("VERIF_REPO_PATH").unwrap_or_else(|_| "/repo".into());
     let harness = std::env::var("VERIF_HARNESS").unwrap_or_else(|_| "/verif/harness".into());
@@ -522,6 +586,7 @@ pub fn run_generated(ctx: &Ctx, report: &mut Report, id: &str, n_crates: usize, 
                             Ok(v) => dumps.push((k, v)),
                             Err(e) => report.inconclusive(&format!("generated crate {k}: unreadable result: {e}")),
                         },
+                        (Ok(s), _) if s.code() == Some(refcodec::runaway::EXIT_RUNAWAY) => runaway_verdict(report, id, k, &out, chunk.iter().find(|b| b.0 == k).map(|b| b.1.clone())),
                         (st, _) => report.inconclusive(&format!("generated crate {k}: the program did not finish normally ({st:?})")),
                     }
                 }
